@@ -218,6 +218,21 @@ class Closure:
         self.module = module
 
 
+class LazyUnion:
+    """a havoced field whose declared type is a union of classes: which alternative it is gets
+    decided (by a case split) only when somebody looks at the field"""
+
+    __slots__ = ("ty", "name", "cell")
+
+    def __init__(self, ty, name):
+        self.ty = ty
+        self.name = name
+        self.cell = None  # pristine copy of the value once some holder has looked at it
+
+    def __repr__(self):
+        return f"LazyUnion({self.name}: {self.ty})"
+
+
 class Unset:
     def __repr__(self):
         return "UNSET"
